@@ -155,7 +155,7 @@ def build_models(ytrain, yval):
     return mk(ytrain), mk(yval)
 
 
-def run_b(mi, p, at, rt, prune, pos):
+def run_b(mi, p, at, rt, prune, pos, validation=True, restore=True):
     """one optim_flat run with a scripted optimizer; returns the observation dict judged by oracle_b"""
     import jax, jax.numpy as jnp, numpy as np
     from liesel.goose.optim import Stopper, optim_flat
@@ -164,7 +164,8 @@ def run_b(mi, p, at, rt, prune, pos):
     mtr, mva = build_models(ytr, yva)
     st = Stopper(max_iter=mi, patience=p, atol=float(at), rtol=float(rt))
     script = jnp.asarray([float(x) for x in pos], dtype=jnp.float32)
-    res = optim_flat(mtr, ["x"], optimizer=scripted_optimizer(script), stopper=st, model_validation=mva,
+    res = optim_flat(mtr, ["x"], optimizer=scripted_optimizer(script), stopper=st,
+                     model_validation=mva if validation else None, restore_best_position=restore,
                      prune_history=prune, progress_bar=False)
     lv = np.asarray(res.history["loss_validation"], dtype=np.float64)
     lt = np.asarray(res.history["loss_train"], dtype=np.float64)
@@ -179,6 +180,7 @@ def run_b(mi, p, at, rt, prune, pos):
     lp_state = float(res.model_state["_model_log_prob"].value)
     x_state = float(res.model_state["x_value"].value) if "x_value" in res.model_state else float(res.model_state[mtr.vars["x"].value_node.name].value)
     return {"part": "B", "max_iter": mi, "patience": p, "atol": at, "rtol": rt, "prune": prune,
+            "validation": validation, "restore": restore,
             "script": [str(x) for x in pos], "loss_val": [None if math.isnan(v) else Fraction(v) for v in lv],
             "loss_train_nan": [bool(math.isnan(v)) for v in lt],
             "pos_hist": [None if math.isnan(v) else Fraction(v) for v in ph],
@@ -211,11 +213,20 @@ def part_b(ctx, rnd):
             elif mode == "zigzag":
                 cur = cur + Fraction(rnd.choice([-1, 1, 0]), 2)
             pos.append(cur)
-        cases.append(run_b(mi, p, at, rt, prune, pos))
+        # strata: no validation model (loop patience := max_iter, user's patience restored for the best
+        # lookup) and restore_best_position=False, each forced at least twice per run
+        validation = not (ci % 4 == 1 or (ci >= 4 and rnd.random() < 0.25))
+        restore = not (ci % 4 == 2 or (ci >= 4 and rnd.random() < 0.25))
+        if not validation:
+            p = rnd.choice([1, 2, 3])      # a window strictly inside the run, so the argmin window matters
+            mode_note = "no_validation"
+        cases.append(run_b(mi, p, at, rt, prune, pos, validation, restore))
     ctx.count(len(cases), len({(c["max_iter"], c["patience"], tuple(c["script"])) for c in cases}))
     ctx.hist("B.optim_flat_runs", len(cases))
     ctx.hist("B.early_stopped", sum(1 for c in cases if c["iteration"] < c["max_iter"] - 1))
     ctx.hist("B.pruned", sum(1 for c in cases if c["prune"]))
+    ctx.hist("B.no_validation_model", sum(1 for c in cases if not c["validation"]))
+    ctx.hist("B.restore_best_position_false", sum(1 for c in cases if not c["restore"]))
     ctx.sample({k: (str(v) if not isinstance(v, (int, bool, list)) else v) for k, v in cases[0].items() if k not in ("loss_train_nan",)} | {"loss_val": [str(x) for x in cases[0]["loss_val"]], "pos_hist": [str(x) for x in cases[0]["pos_hist"]]})
     return cases
 
@@ -224,6 +235,8 @@ def borderline(c):
     """float rounding could flip a comparison of the exact-rational model: skip such cases (counted)"""
     lv = [x for x in c["loss_val"] if x is not None]
     p, at, rt = c["patience"], c["atol"], c["rtol"]
+    if not c.get("validation", True):
+        return False
     for i in range(len(lv)):
         if i > p:
             win = lv[i - p + 1:i + 1]
@@ -242,11 +255,13 @@ def emit_b(ctx, cases):
             continue
         lv = c["loss_val"]
         known = [x for x in lv if x is not None]
-        rows.append("(mkOC (mkStopper {mi} {p} {at} {rt}) {prune} {losses} {it} {ib} {hl} {nn} {okpos})".format(
+        ph = [x for x in c["pos_hist"] if x is not None]
+        rows.append("(mkOC (mkStopper {mi} {p} {at} {rt}) {hv} {rs} {prune} {losses} {it} {ib} {hl} {nn} {ph} {pos})".format(
             mi=natlit(c["max_iter"]), p=natlit(c["patience"]), at=qlit(c["atol"]), rt=qlit(c["rtol"]),
+            hv=blit(c["validation"]), rs=blit(c["restore"]),
             prune=blit(c["prune"]), losses=lst(qlit(x) for x in known), it=natlit(c["iteration"]), ib=zlit(c["ibest"]),
             hl=natlit(len(lv)), nn=natlit(sum(1 for x in lv if x is None)),
-            okpos=blit(c["pos_hist"][c["ibest"]] == c["position"] if 0 <= c["ibest"] < len(c["pos_hist"]) else False)))
+            ph=lst(qlit(x) for x in ph), pos=qlit(c["position"])))
     txt = HEADER + f"""
 Definition cases : list ocase := {lst(rows)}.
 Lemma shard_ok : forallb agrees_o cases = true.
@@ -261,7 +276,9 @@ def oracle_b(c):
     mi, p, at, rt, it, ib = c["max_iter"], c["patience"], c["atol"], c["rtol"], c["iteration"], c["ibest"]
     if borderline(c):
         return None
-    first = next((i for i in range(len(known)) if py_rule(mi, p, at, rt, i, known)), None)
+    # without a validation model the loop runs with patience = max_iter: only the iteration limit stops it
+    lp = p if c.get("validation", True) else mi
+    first = next((i for i in range(len(known)) if py_rule(mi, lp, at, rt, i, known)), None)
     if first != it:
         return {"why": f"optim_flat stopped at iteration {it}; the documented rule first fires at {first}", "case": _js(c)}
     lo = it - p + 1
@@ -270,8 +287,11 @@ def oracle_b(c):
     win = known[lo:it + 1]
     if ib != lo + win.index(min(win)):
         return {"why": f"iteration_best={ib} is not the first minimiser of the validation loss in the final patience window", "case": _js(c)}
-    if c["pos_hist"][ib] != c["position"]:
-        return {"why": "returned position is not the recorded position at iteration_best", "case": _js(c)}
+    if c.get("restore", True):
+        if c["pos_hist"][ib] != c["position"]:
+            return {"why": "returned position is not the recorded position at iteration_best", "case": _js(c)}
+    elif c["pos_hist"][it] != c["position"]:
+        return {"why": "restore_best_position=False: returned position is not the position of the last iteration", "case": _js(c)}
     want_len = it + 1 if c["prune"] else mi
     if len(lv) != want_len or any(x is None for x in lv[:it + 1]) or any(x is not None for x in lv[it + 1:]) \
             or c["loss_train_nan"] != [x is None for x in lv] or [x is None for x in c["pos_hist"]] != [x is None for x in lv]:
@@ -459,7 +479,7 @@ def replay(rp) -> int:
     elif "case" in r and r["case"].get("part") == "B":
         c = r["case"]
         obs = run_b(int(c["max_iter"]), int(c["patience"]), Fraction(c["atol"]), Fraction(c["rtol"]), bool(c["prune"]),
-                    [Fraction(x) for x in c["script"]])
+                    [Fraction(x) for x in c["script"]], bool(c.get("validation", True)), bool(c.get("restore", True)))
         verdict = oracle_b(obs)
     elif "n" in r and "batch_size" in r:
         obs = run_c(int(r["n"]), int(r["batch_size"]), int(r.get("iterations", 5)), int(r["seed"]))
